@@ -207,6 +207,72 @@ func c04Validators(p *Program, r *Report) {
 			r.Check(!bad, "R-C04-2", fnName(f)+"/dotdot-rejected", p.Pos(ce.pos()), "equal to '..' leads only to false", fnName(f)+" can accept a value equal to '..'")
 		}
 		if !found {
+			// the comparison sits in a predicate handed to slices.ContainsFunc / IndexFunc over the segments, and
+			// the validator answers the negation of that search: `return !slices.ContainsFunc(segments, isDotSegment)`
+			viaPred := false
+			for _, c := range callsIn(f) {
+				cn := calleeName(c)
+				if !strings.HasPrefix(cn, "slices.ContainsFunc") || len(c.Common().Args) != 2 {
+					continue
+				}
+				predTrueOnDotDot := false
+				for _, g := range funcValuesOf(c.Common().Args[1]) {
+					for _, ce := range condEdgesOf(g) {
+						if ce.isEqNeq && ce.atoms[`const:".."`] {
+							// on the edge "segment is '..'" the predicate cannot answer false
+							reach := reachableFromEdge(g, ce.holds, nil)
+							okP := true
+							for _, ret := range returnsOf(g) {
+								if !reach[ret.Block()] {
+									continue
+								}
+								if b, isC := constBool(ret.Results[0]); isC && !b {
+									okP = false
+								}
+							}
+							if okP {
+								predTrueOnDotDot = true
+							}
+						}
+					}
+					// `return seg == "." || seg == ".."` : the comparison is a value, not a branch
+					for _, ret := range returnsOf(g) {
+						if atomsOf(ret.Results[0])[`const:".."`] && len(condEdgesOf(g)) <= 1 {
+							predTrueOnDotDot = true
+						}
+					}
+				}
+				if !predTrueOnDotDot {
+					continue
+				}
+				// the search result is returned negated (or tested with the found edge leading to false only)
+				cv, _ := c.(ssa.Value)
+				for _, ret := range returnsOf(f) {
+					if u, isU := ret.Results[0].(*ssa.UnOp); isU && u.Op == token.NOT && u.X == cv {
+						viaPred = true
+					}
+				}
+				for _, ce := range condEdgesOf(f) {
+					if ce.cond == cv {
+						reach := reachableFromEdge(f, ce.holds, nil)
+						bad := false
+						for _, ret := range returnsOf(f) {
+							if reach[ret.Block()] {
+								if b, isC := constBool(ret.Results[0]); !isC || b {
+									bad = true
+								}
+							}
+						}
+						if !bad {
+							viaPred = true
+						}
+					}
+				}
+			}
+			if viaPred {
+				r.Ok("R-C04-2", fnName(f)+"/dotdot-rejected", p.Pos(f.Pos()), "a segment equal to '..' is found by the predicate handed to slices.ContainsFunc and the validator answers the negation")
+				continue
+			}
 			r.Viol("R-C04-2", fnName(f)+"/dotdot-rejected", p.Pos(f.Pos()), fnName(f)+" has no comparison with '..'")
 		}
 	}
